@@ -353,7 +353,7 @@ func c10Run(c *core.Ctx, long bool) {
 		if model == "Sacramento" {
 			c.Tag("Sacramento:whole-lagged")
 		}
-		out, err := Execute(run)
+		out, err := ExecuteFor(c, run)
 		if err != nil {
 			c.Violate("prepare", model, err.Error())
 			return
